@@ -391,6 +391,10 @@ func (m *Module) Binary() []byte {
 		w.ImportSection = append(w.ImportSection, wasm.Import{Type: wasm.ExternTypeFunc, Module: "host", Name: fmt.Sprintf("h%d", i), DescFunc: uint32(ti)})
 	}
 	w.ImportFunctionCount = uint32(len(m.Imports))
+	for i := range m.Imports {
+		// imported functions are re-exported as well: calling them through the API needs no guest code at all
+		w.ExportSection = append(w.ExportSection, wasm.Export{Name: fmt.Sprintf("i%d", i), Type: wasm.ExternTypeFunc, Index: uint32(i)})
+	}
 	for i, f := range m.Funcs {
 		w.FunctionSection = append(w.FunctionSection, uint32(f.Type))
 		w.CodeSection = append(w.CodeSection, wasm.Code{LocalTypes: f.Locals, Body: append(append([]byte{}, f.Code.B...), wasm.OpcodeEnd)})
